@@ -292,6 +292,25 @@ func (x *yyLex) openBrackets() bool {
 	return x.bracket != 0 || x.parenthesis != 0 || x.brace != 0
 }
 
+// OpenBrackets reports whether the source text in ends inside a
+// bracket ( [ or { which has not been closed yet, so that further
+// lines would still belong to the same logical line.
+func OpenBrackets(in string) (open bool) {
+	lex, err := NewLex(bytes.NewBufferString(in), "<string>", py.ExecMode)
+	if err != nil {
+		return false
+	}
+	defer func() {
+		if r := recover(); r != nil {
+			open = false
+		}
+	}()
+	yylval := yySymType{}
+	for lex.Lex(&yylval) != eof {
+	}
+	return !lex.error && lex.openBrackets()
+}
+
 // States
 const (
 	readString = iota
